@@ -192,6 +192,20 @@ m("c17-leak-fill-loop-efailed", "C17", ALGOS,
   "polygonToCells: 'found' leaked on the E_FAILED exit of the fill loop (output table full; reached only when "
   "the caller's output array is not zero-filled or the size estimate is exceeded)", "O3-leak")
 
+m("c17-many-holes-scratch-leak", "C17", POLYFILL,
+  """    bboxesFromGeoPolygon(polygon, iter._bboxes);
+
+    return iter;""",
+  """    bboxesFromGeoPolygon(polygon, iter._bboxes);
+    if (polygon->numHoles > 16) {
+        // "validate" polygons with many holes in a temporary copy of the boxes - never released
+        BBox *tmp = H3_MEMORY(malloc)((polygon->numHoles + 1) * sizeof(BBox));
+        if (tmp) memcpy(tmp, iter._bboxes, (polygon->numHoles + 1) * sizeof(BBox));
+    }
+
+    return iter;""",
+  "_iterInitPolygonCompact: extra scratch block leaked for polygons with more than 16 holes only", "O3-leak")
+
 # ------------------------------------------------------------------ C18 ----
 m("c18-memo-ipow", "C18", MATHX,
   """int64_t _ipow(int64_t base, int64_t exp) {
